@@ -610,6 +610,8 @@ class MarkdownNormalizer(Renderer):
         rule = "- - -" if self._prefix.rstrip().endswith("*") else "* * *"
         result = f"{self._prefix}{rule}\n"
         self._prefix = self._second_prefix
+        # As after a code block or a quote: the next item of a loose list is separated.
+        self._suppress_item_break = False
         return result
 
     def render_heading(self, element: block.Heading) -> str:
